@@ -377,3 +377,59 @@ def check_polarity(rep, rule, ci, methods, rel=None):
                 rep.bad(rule, C, f"{label} polarity {rho:+d}", f"in `{name}` the {label} terms of body 2 enter with relative sign {rho:+d} to those of body 1, but "
                         f"{ref:+d} in `{ref_name}`: the quantity depends on the relative kinematics, so one block has the wrong sign", f"{rel}:{fn.lineno}")
     return n
+
+
+def signed_calls(expr, defs=None, sign=1):
+    """[(dotted callee, sign, call node)] for every call `a.b.c(...)` inside expr with the syntactic sign of its path
+    (+, -, unary minus, products with negated cofactors, linear wrappers)."""
+    out = []
+    defs = defs or {}
+
+    def rec(e, sg, depth=0):
+        if depth > 10:
+            return
+        if isinstance(e, ast.UnaryOp) and isinstance(e.op, ast.USub):
+            rec(e.operand, -sg, depth)
+        elif isinstance(e, ast.BinOp):
+            if isinstance(e.op, ast.Add):
+                rec(e.left, sg, depth)
+                rec(e.right, sg, depth)
+            elif isinstance(e.op, ast.Sub):
+                rec(e.left, sg, depth)
+                rec(e.right, -sg, depth)
+            elif isinstance(e.op, (ast.Mult, ast.MatMult, ast.Div)):
+                rec(e.left, sg * csign(e.right, defs), depth)
+                if not isinstance(e.op, ast.Div):
+                    rec(e.right, sg * csign(e.left, defs), depth)
+            elif isinstance(e.op, ast.Pow):
+                pass
+        elif isinstance(e, ast.Call):
+            d = dotted(e.func)
+            f = (d or "").split(".")[-1]
+            if d and (d.startswith("self.") or d.startswith("object.")):
+                out.append((d, sg, e))
+                return
+            if not d and isinstance(e.func, ast.Attribute) and e.func.attr in ("reshape", "transpose", "copy", "squeeze", "ravel", "flatten"):
+                rec(e.func.value, sg, depth)
+                return
+            if f in LINEAR_CALLS:
+                for a in e.args:
+                    if isinstance(a, (ast.List, ast.Tuple)):
+                        for x in a.elts:
+                            rec(x, sg, depth)
+                    elif not (isinstance(a, ast.Constant) and isinstance(a.value, str)):
+                        rec(a, sg * _sign_of_siblings(e, a, defs), depth)
+        elif isinstance(e, ast.Attribute) and e.attr == "T":
+            rec(e.value, sg, depth)
+        elif isinstance(e, ast.Subscript):
+            rec(e.value, sg, depth)
+        elif isinstance(e, ast.Name):
+            d = defs.get(e.id)
+            if d and len(d) == 1 and d[0] is not None:
+                rec(d[0], sg, depth + 1)
+        elif isinstance(e, (ast.List, ast.Tuple)):
+            for x in e.elts:
+                rec(x, sg, depth)
+
+    rec(expr, sign)
+    return out
